@@ -35,6 +35,8 @@ def plan(ctx):
     obs += lrc_obligations(ctx, ["error_token"], prefix="lrc.")
     from sqv.harness import txt
     for i, prog in enumerate(txt.PROGRAMS):
+        if len(prog) > 600:
+            continue          # (the program with hundreds of blank statements is for the layout rewrites of C15 only)
         obs.append(Obligation(f"txt.error_line.p{i}", "xh", "txt", "error_line", param={"program": i}, timeout=T * 6,
                               bounds="one of 20 concrete programs (strings and comments containing brackets/quotes/#, nested multi-line literals, %..% names); "
                                      "stray text, separator variant, truncation, earlier list_names() and parse cache symbolic (finite domain chosen by the solver); every token boundary then damaged natively on the real lexer+parser within the path",
